@@ -128,7 +128,7 @@ def group_class(e):
     return None
 
 
-def group_pipeline(c, nprog_quick=240, nprog_thorough=2500, depth_quick=16, depth_thorough=30):
+def group_pipeline(c, nprog_quick=240, nprog_thorough=15000, depth_quick=16, depth_thorough=30):
     n = nprog_quick if c.tier == "quick" else nprog_thorough
     depth = depth_quick if c.tier == "quick" else depth_thorough
     progs = c.generate("Gen_Group", env={"VERIF_DEPTH": depth}, simulate="num=%d" % n)
@@ -546,7 +546,7 @@ def c13(c):
     c.count_classes(files, lambda e: (e["prog"], e["k"], e["op"]))
     c.sample_events(files, 2, keep=lambda e: e["op"] not in ("start", "end"))
     # (b) frame conditions of every call of the group-family histories (slots outside the frame bit for bit unchanged)
-    group_pipeline(c, nprog_quick=120, nprog_thorough=1500)
+    group_pipeline(c, nprog_quick=120, nprog_thorough=5000)
     # (c) proofs: commitments only re-normalised, polynomials / indices / statements / proofs unchanged
     pf = mp_runs(c, "mp_arrival" if quick else "mp_honest", [(vlib.NCPU, "")])
     c.validate("Trace_Proof", pf, heap="6g", timeout=7200)
